@@ -50,6 +50,11 @@ struct Target {
     skip_macros: Vec<String>,
     panic_site: String,
     scope: String,
+    fields: HashMap<String, (String, Kind)>,      // struct field access  .name -> template with $0
+    imaps: HashMap<String, String>,               // receiver text of `recv[&Tag::X]` -> coq msg term
+    mutmethod: HashMap<String, String>,           // "name/arity" -> new value of the receiver variable
+    extra_params: Vec<(String, String)>,          // Coq-only parameters (coq name, type)
+    has_self: bool,
 }
 
 struct Tr<'a> {
@@ -68,6 +73,7 @@ enum K<'a> {
     Seq(&'a [Stmt], Box<K<'a>>, usize), // remaining statements of an enclosing block, its env depth
     LoopNext,                          // end of a for-loop body: go on with the next element
     Join(Vec<String>),                 // end of a branch that rejoins: yield the current versions of these variables
+    Val,                               // a block used as a value (let x = if .. { ..; v } else { .. })
 }
 
 impl<'a> Tr<'a> {
@@ -213,6 +219,52 @@ impl<'a> Tr<'a> {
                 };
                 Ok((s, k))
             }
+            Expr::Field(f) => {
+                let member = toks(&f.member);
+                let (tmpl, kind) = self.t.fields.get(&member).cloned().ok_or(format!("field .{} in {}", member, text))?;
+                let (b, _) = self.expr(&f.base, binds)?;
+                Ok((format!("({})", Self::subst(&tmpl, &[b])), kind))
+            }
+            Expr::Index(ix) if !matches!(&*ix.index, Expr::Range(_)) => {
+                // map[&Tag::X]: HashMap indexing panics on a missing key
+                let recv = toks(&ix.expr);
+                let m = match self.t.imaps.get(&recv) {
+                    Some(m) => self.subst_vars(m),
+                    None => return Err(format!("indexing {} (no imap entry)", text)),
+                };
+                let key = match &*ix.index {
+                    Expr::Reference(r) => toks(&r.expr),
+                    other => toks(other),
+                };
+                let tag = self.t.ctor.get(&key).cloned().ok_or(format!("index key {}", key))?;
+                let n = self.fresh("i");
+                binds.push((n.clone(), format!("idx_p {} {} {}", self.t.panic_site, m, tag)));
+                Ok((n, Kind::Bytes))
+            }
+            Expr::Match(m) => {
+                // a match used as a value: every arm is a plain expression
+                let (scrut, _) = self.expr(&m.expr, binds)?;
+                let mut out = format!("(match {} with", scrut);
+                let mut kind = Kind::Other;
+                for a in &m.arms {
+                    if a.guard.is_some() {
+                        return Err(format!("guard in a value match: {}", text));
+                    }
+                    let saved = self.env.clone();
+                    self.env.push(HashMap::new());
+                    let pat = self.pattern(&a.pat)?;
+                    let nb = binds.len();
+                    let (v, k) = self.expr(&a.body, binds)?;
+                    self.env = saved;
+                    if binds.len() != nb {
+                        return Err(format!("partial expression in an arm of a value match: {}", text));
+                    }
+                    kind = k;
+                    let _ = write!(out, " | {} => {}", pat, v);
+                }
+                out.push_str(" end)");
+                Ok((out, kind))
+            }
             Expr::Index(ix) => {
                 // slices by range: &buf[a..b], &buf[..b], &buf[a..]
                 let (base, _) = self.expr(&ix.expr, binds)?;
@@ -231,6 +283,13 @@ impl<'a> Tr<'a> {
                 } else {
                     Err(format!("index {}", text))
                 }
+            }
+            Expr::MethodCall(m) if (m.method == "unwrap" || m.method == "expect") && self.is_fallible(&m.receiver) => {
+                // Result::unwrap / expect on a fallible call: the error becomes a panic
+                let inner = self.res_expr(&m.receiver, binds)?;
+                let n = self.fresh("u");
+                binds.push((n.clone(), format!("unwrap_p {} ({})", self.t.panic_site, inner)));
+                Ok((n, Kind::Other))
             }
             Expr::MethodCall(m) => {
                 let key = format!("{}/{}", m.method, m.args.len());
@@ -277,6 +336,15 @@ impl<'a> Tr<'a> {
                 binds.push((n.clone(), inner));
                 Ok((n, Kind::Other))
             }
+            Expr::Struct(st) => {
+                let name = toks(&st.path);
+                let ctor = self.t.ctor.get(&name).cloned().ok_or(format!("struct {}", name))?;
+                let mut parts = Vec::new();
+                for f in &st.fields {
+                    parts.push(self.expr(&f.expr, binds)?.0);
+                }
+                Ok((format!("({} {})", ctor, parts.join(" ")), Kind::Other))
+            }
             Expr::Tuple(t) => {
                 let mut parts = Vec::new();
                 for x in &t.elems {
@@ -285,6 +353,21 @@ impl<'a> Tr<'a> {
                 Ok((format!("({})", parts.join(", ")), Kind::Other))
             }
             _ => Err(format!("expression form not in the subset: {}", text)),
+        }
+    }
+
+    fn is_fallible(&self, e: &Expr) -> bool {
+        match e {
+            Expr::Paren(p) => self.is_fallible(&p.expr),
+            Expr::Call(c) => {
+                let key = format!("{}/{}", toks(&c.func), c.args.len());
+                matches!(self.t.call.get(&key), Some((_, _, true)))
+            }
+            Expr::MethodCall(m) => {
+                let key = format!("{}/{}", m.method, m.args.len());
+                matches!(self.t.method.get(&key), Some((_, _, true))) && m.method != "unwrap"
+            }
+            _ => false,
         }
     }
 
@@ -415,6 +498,7 @@ impl<'a> Tr<'a> {
                 if self.t.retmode == "unit" { Ok("Ok tt".to_string()) } else { Err("control reaches the end of a non-unit function".into()) }
             }
             K::LoopNext => Ok("None".to_string()),
+            K::Val => Err("a block used as a value must end in an expression".into()),
             K::Join(vars) => {
                 let mut parts = Vec::new();
                 for v in vars {
@@ -460,6 +544,19 @@ impl<'a> Tr<'a> {
                 let p = toks(&m.mac.path);
                 if self.is_skipped_macro(&p) {
                     self.seq(rest, k)
+                } else if p == "panic" || p == "unreachable" {
+                    Ok(format!("Panic {}", self.t.panic_site))
+                } else if p == "assert_eq" {
+                    let args: syn::punctuated::Punctuated<Expr, syn::Token![,]> = m
+                        .mac
+                        .parse_body_with(syn::punctuated::Punctuated::parse_terminated)
+                        .map_err(|e| e.to_string())?;
+                    let mut binds = Vec::new();
+                    let (a, ka) = self.expr(&args[0], &mut binds)?;
+                    let (b, kb) = self.expr(&args[1], &mut binds)?;
+                    let c = if ka == Kind::Bytes || kb == Kind::Bytes { format!("bytes_eqb {} {}", a, b) } else { format!("{} =? {}", a, b) };
+                    let restc = self.seq(rest, k)?;
+                    Ok(Self::wrap_binds(binds, format!("if {} then\n{}\nelse Panic {}", c, restc, self.t.panic_site)))
                 } else if p == "assert" {
                     // assert!(cond, ...): panic when the condition is false
                     let args: syn::punctuated::Punctuated<Expr, syn::Token![,]> = m
@@ -473,6 +570,28 @@ impl<'a> Tr<'a> {
                 } else {
                     Err(format!("macro {}!", p))
                 }
+            }
+            Stmt::Local(l) if l.init.as_ref().map(|i| matches!(&*i.expr, Expr::If(_) | Expr::Block(_))).unwrap_or(false)
+                && !matches!(&*l.init.as_ref().unwrap().expr, Expr::If(i) if matches!(&*i.cond, Expr::Let(_)) && false) =>
+            {
+                // let x = if c { ..; v } else { ..; w };   — the branches are blocks used as values
+                let init = l.init.as_ref().unwrap();
+                let name = match &l.pat {
+                    Pat::Ident(i) => i.ident.to_string(),
+                    _ => return Err(format!("let pattern {}", toks(&l.pat))),
+                };
+                let saved = self.env.clone();
+                let inner = match &*init.expr {
+                    Expr::If(i) => self.if_stmt(i, &[], &K::Val),
+                    Expr::Block(b) => self.block(&b.block, &[], &K::Val),
+                    _ => unreachable!(),
+                };
+                self.env = saved;
+                let inner = inner?;
+                let kind = self.t.kinds.get(&name).cloned().unwrap_or(Kind::Other);
+                let c = self.bind(&name, kind);
+                let restc = self.seq(rest, k)?;
+                Ok(format!("obind ({}) (fun {} =>\n{})", inner, c, restc))
             }
             Stmt::Local(l) => {
                 let init = l.init.as_ref().ok_or("let without initialiser")?;
@@ -545,6 +664,48 @@ impl<'a> Tr<'a> {
                 ))
             }
             Expr::Block(b) => self.block(&b.block, rest, k),
+            Expr::MethodCall(m) if !rest.is_empty() || !matches!(k, K::End | K::Val) || true => {
+                let key = format!("{}/{}", m.method, m.args.len());
+                if let Some(tmpl) = self.t.mutmethod.get(&key).cloned() {
+                    // x.extend(y);  — the receiver variable gets a new value
+                    let recv = toks(&m.receiver);
+                    let mut binds = Vec::new();
+                    let (r0, _) = self.expr(&m.receiver, &mut binds)?;
+                    let mut args = vec![r0];
+                    for a in &m.args {
+                        args.push(self.expr(a, &mut binds)?.0);
+                    }
+                    let v = Self::subst(&tmpl, &args);
+                    let c = self.rebind(&recv)?;
+                    let restc = self.seq(rest, k)?;
+                    return Ok(Self::wrap_binds(binds, format!("let {} := {} in\n{}", c, v, restc)));
+                }
+                if self.is_fallible(e) && (!rest.is_empty() || !self.tail_position(k)) {
+                    // self.validate_x();  — may panic, value dropped
+                    let mut binds = Vec::new();
+                    let r = self.res_expr(e, &mut binds)?;
+                    let restc = self.seq(rest, k)?;
+                    return Ok(Self::wrap_binds(binds, format!("obind ({}) (fun _ =>\n{})", r, restc)));
+                }
+                self.tail_expr(e, rest, k)
+            }
+            _ => self.tail_expr(e, rest, k),
+        }
+    }
+
+    fn tail_position(&self, k: &K) -> bool {
+        let mut kk = k;
+        loop {
+            match kk {
+                K::Seq(r, outer, _) if r.is_empty() => kk = outer,
+                K::End | K::Val => return true,
+                _ => return false,
+            }
+        }
+    }
+
+    fn tail_expr(&mut self, e: &Expr, rest: &[Stmt], k: &K) -> R<String> {
+        match e {
             _ => {
                 // tail expression of the function body (or of a block in tail position)
                 if rest.is_empty() && matches!(k, K::End) {
@@ -556,6 +717,11 @@ impl<'a> Tr<'a> {
                         match kk {
                             K::Seq(r, outer, _) if r.is_empty() => kk = outer,
                             K::End => return self.ret(e),
+                            K::Val => {
+                                let mut binds = Vec::new();
+                                let (v, _) = self.expr(e, &mut binds)?;
+                                return Ok(Self::wrap_binds(binds, format!("Ok {}", v)));
+                            }
                             _ => return Err(format!("expression statement not in the subset: {}", toks(e))),
                         }
                     }
@@ -809,6 +975,23 @@ fn parse_targets(text: &str) -> (String, Vec<Target>) {
             "retmode" => t.retmode = rest.to_string(),
             "site" => t.panic_site = rest.to_string(),
             "scope" => t.scope = rest.to_string(),
+            "extra" => {
+                let (a, ty) = rest.split_once(':').expect("extra needs a type");
+                t.extra_params.push((a.trim().to_string(), ty.trim().to_string()));
+            }
+            "fld" | "fldn" | "fldb" => {
+                let (a, b) = arrow(rest);
+                let k = if key == "fldn" { Kind::Num } else if key == "fldb" { Kind::Bytes } else { Kind::Other };
+                t.fields.insert(a, (b, k));
+            }
+            "imap" => {
+                let (a, b) = arrow(rest);
+                t.imaps.insert(norm(&a), b);
+            }
+            "mutmethod" => {
+                let (a, b) = arrow(rest);
+                t.mutmethod.insert(norm(&a), b);
+            }
             "skip" => t.skip_macros = rest.split_whitespace().map(|s| s.to_string()).collect(),
             "param" => {
                 // param <rust> <coq> <kind> : <coq type>
@@ -964,6 +1147,9 @@ fn main() {
             let kind = t.kinds.get(r).cloned().unwrap_or(Kind::Other);
             tr.env[0].insert(r.clone(), (c.clone(), kind));
             let _ = write!(header, " ({} : {})", c, ty);
+        }
+        for (c, ty) in &t.extra_params {
+            header = header.replacen(&format!("Definition {}", t.coq), &format!("Definition {} ({} : {})", t.coq, c, ty), 1);
         }
         let _ = write!(header, " : res ({}) :=\n", t.ret);
         match tr.seq(&block.stmts, &K::End) {
